@@ -442,6 +442,16 @@ func init() {
 				for _, g := range c.P.Region(h) {
 					addF(g)
 				}
+				// shared helpers the wrapper calls (e.g. one lock-purge-sample helper for all four wrappers)
+				for _, g := range append([]*ssa.Function{}, all...) {
+					forEachInstr(g, func(in ssa.Instruction) {
+						if ci, ok := in.(ssa.CallInstruction); ok {
+							if sc := ci.Common().StaticCallee(); sc != nil && c.P.inPkg(sc) && sc.Blocks != nil && sc.Signature.Recv() != nil && typeShort(sc.Signature.Recv().Type()) == "*Stream" {
+								addF(sc)
+							}
+						}
+					})
+				}
 				for _, g := range all {
 					nSample += len(callsIn(g, ir))
 					for _, m := range []string{"Signal", "Broadcast"} {
@@ -666,13 +676,18 @@ func init() {
 				fn := site.Fn
 				n++
 				good := 0
-				for _, ci := range callsOnField(fn, t3, "start") {
-					in := ci.(ssa.Instruction)
-					if !CanReach(site.Instr, in) {
+				var starts []ssa.Instruction
+				for _, g := range c.P.Region(fn) {
+					for _, ci := range callsOnField(g, t3, "start") {
+						starts = append(starts, ci.(ssa.Instruction))
+					}
+				}
+				for _, in := range starts {
+					if in.Parent() == fn && !CanReach(site.Instr, in) {
 						continue
 					}
 					clean := true
-					for _, f := range DomFacts(in.Block()) {
+					for _, f := range localFactsUpTo(in, fn) {
 						if !derives(f.Cond, func(v ssa.Value) bool {
 							if ex, ok := v.(*ssa.Extract); ok {
 								return ex.Tuple == site.Instr.(ssa.Value)
@@ -745,14 +760,25 @@ func init() {
 			for _, pn := range []string{"paramA", "paramB"} {
 				f := c.field("chunkReconfig", pn)
 				n := 0
+				nCalls := 0
 				for _, g := range c.P.Region(fn) {
-					for _, cs := range callsIn(g, hp) {
-						for _, a := range cs.Common().Args {
-							if IsLoadOf(f)(a) {
-								n++
-							}
+					nCalls += len(callsIn(g, hp))
+					// the parameter is read and used for more than a nil test (handed on, directly or through a list)
+					forEachInstr(g, func(in ssa.Instruction) {
+						u, ok := in.(*ssa.UnOp)
+						if !ok || !IsLoadOf(f)(u) || u.Referrers() == nil {
+							return
 						}
-					}
+						for _, r := range *u.Referrers() {
+							if b, isB := r.(*ssa.BinOp); isB && (b.Op == token.EQL || b.Op == token.NEQ) {
+								continue
+							}
+							n++
+						}
+					})
+				}
+				if nCalls == 0 {
+					n = 0
 				}
 				c.Check(n >= 1, "reconfig-param-processed:"+pn, c.P.Pos(fn.Pos()), pn+" is handed to handleReconfigParam", "handleReconfig never processes "+pn)
 			}
@@ -799,8 +825,27 @@ func init() {
 				reg := c.P.Region(h)
 				stores := func(f *types.Var) int {
 					n := 0
-					for _, g := range reg {
+					seen := map[*ssa.Function]bool{}
+					var walk func(g *ssa.Function, d int)
+					walk = func(g *ssa.Function, d int) {
+						if g == nil || g.Blocks == nil || seen[g] || d > 2 {
+							return
+						}
+						seen[g] = true
 						n += len(c.storesIn(g, f))
+						forEachInstr(g, func(in ssa.Instruction) {
+							if ci, ok := in.(ssa.CallInstruction); ok {
+								if sc := ci.Common().StaticCallee(); sc != nil && c.P.inPkg(sc) {
+									walk(sc, d+1)
+								}
+							}
+						})
+						for _, an := range g.AnonFuncs {
+							walk(an, d)
+						}
+					}
+					for _, g := range reg {
+						walk(g, 0)
 					}
 					return n
 				}
